@@ -51,6 +51,29 @@ pub fn gen_corpus_spec(rng: &mut Prng) -> Spec {
     spec
 }
 
+/// Extra corpus entries that need the simulator's default feature set to be GENERATED (crafted
+/// linear-engine states are read out through serde): the parent generates them once and every
+/// configuration executes the same explicit specs (`rngsim corpus-file`).
+pub fn gen_extra_corpus(seed: u64, n: usize) -> Vec<Spec> {
+    let mut rng = Prng::new(crate::prng::h2(seed, 0xC18C));
+    let mut out = Vec::new();
+    let mut attempts = 0;
+    while out.len() < n && attempts < 4 * n {
+        attempts += 1;
+        let mut spec = Spec { prop: "C18".into(), variant: "corpus_det_zero_word_state".into(), ..Default::default() };
+        spec.ops = gen_output_ops(&mut rng, Kind::Xoshiro256PlusPlus, 12);
+        if make_zero_word_run(&mut rng, &mut spec, true) {
+            // a second jump later in the history now and then
+            if spec.kind.map(|k| k.has_jump()).unwrap_or(false) && rng.chance(1, 3) {
+                let at = rng.below(spec.ops.len() as u64 + 1) as usize;
+                spec.ops.insert(at, if rng.chance(1, 2) { Op::Jump } else { Op::LongJump });
+            }
+            out.push(spec);
+        }
+    }
+    out
+}
+
 /// Execute a corpus spec; returns per-op digests (the last entry is the drain).
 pub fn exec_corpus(spec: &Spec, st: &mut Stats) -> Vec<u64> {
     let mut per_op = Vec::new();
